@@ -1,5 +1,6 @@
 import H2V.Model.HpackDec
 import H2V.Spec.Hpack
+import H2V.Lemmas.Huffman
 /-
   C11 — HPACK/Huffman decoding agrees with RFC 7541 on every input, however split.
   Property theorems only (helper lemmas live in `H2V/Lemmas`).
@@ -15,5 +16,34 @@ theorem huffman_tables_are_rfc :
 /-- `get_static` (regenerated from the source) is the static table of RFC 7541 Appendix A. -/
 theorem static_table_is_rfc :
     Generated.Static.staticL = Spec.Rfc7541.staticTable := by decide +kernel
+
+/-- For EVERY byte string the byte-indexed table-walk decoder of `hpack/huffman/mod.rs` (u32
+    accumulator, tail loop, padding rule, as coded) returns exactly what the canonical bit-by-bit
+    decoder of RFC 7541 §5.2 returns — same symbols, same errors (EOS, bad or over-long padding) —
+    and never runs out of fuel (the Rust `while` loops terminate). -/
+theorem huffman_decode_is_canonical (bs : Bytes) (h : Bytes.Valid bs) :
+    Model.Huffman.decode bs =
+      (match Spec.Huffman.decode bs with | some out => Res.ok out | none => Res.err ()) :=
+  Lemmas.Huffman.decode_eq_spec bs h
+
+/-- `decode (encode s) = s` for every byte string -/
+theorem huffman_roundtrip (s : Bytes) (h : Bytes.Valid s) :
+    Model.Huffman.decode (Model.Huffman.encode s) = Res.ok s :=
+  Lemmas.Huffman.roundtrip s h
+
+/-- h2's encoder emits exactly the RFC 7541 §5.2 encoding (code of Appendix B, EOS-prefix padding) -/
+theorem huffman_encode_is_canonical (s : Bytes) (h : Bytes.Valid s) :
+    Model.Huffman.encode s = Spec.Huffman.encode s :=
+  Lemmas.Huffman.encode_eq_spec s h
+
+/-- every leaf of the decode tables consumes between 1 and 8 bits: the `while bits >= 8` loop of
+    `huffman::decode` makes progress on every iteration (C08: no busy loop on any input) -/
+theorem huffman_leaf_progress (t i : Nat) (ht : t < 15) (hi : i < 256)
+    (hl : Model.Huffman.lookup t i &&& Generated.Huffman.BRANCH = 0) :
+    1 ≤ Model.Huffman.lookup t i >>> 8 ∧ Model.Huffman.lookup t i >>> 8 ≤ 8 :=
+  Lemmas.Huffman.leaf_bits_pos ht hi hl
+
+-- non-vacuity: a concrete non-trivial string meets the hypotheses and exercises a 2-level table walk
+example : Model.Huffman.decode (Model.Huffman.encode [35, 0, 255, 104]) = Res.ok [35, 0, 255, 104] := by decide +kernel
 
 end H2V.Props.C11
